@@ -23,7 +23,7 @@ META = {
     "bounds": profiles.BOUNDS_TEXT,
     "outside": profiles.OUTSIDE + ["PYTHONHASHSEED (affects str hashes only; the scan reports any set/dict of strings iterated on the simulation path)"],
 }
-REQUIRED_COVERS = {"any": ["order:permuted", "order:same-step-zero-ff", "repeat", "hidden:after-insert", "scan:ok", "after-cut:inside"]}
+REQUIRED_COVERS = {"any": ["order:permuted", "order:same-step-zero-ff", "repeat", "hidden:after-insert", "scan:ok", "after-cut:inside", "hidden:backward-after-forward"]}
 
 
 def scan_unordered():
@@ -42,6 +42,11 @@ def scan_unordered():
                 kind = "set-display"
             elif isinstance(node, ast.FunctionDef) and node.name == "__hash__":
                 kind = "__hash__"
+            elif isinstance(node, ast.Call) and isinstance(node.func, ast.Attribute) and node.func.attr in ("intersection", "union", "difference", "symmetric_difference"):
+                kind = "set-algebra"
+            elif isinstance(node, ast.BinOp) and isinstance(node.op, (ast.BitAnd, ast.BitOr, ast.BitXor)) and any(
+                    isinstance(x, ast.Call) and isinstance(x.func, ast.Attribute) and x.func.attr in ("keys", "items") for x in (node.left, node.right)):
+                kind = "set-algebra"
             if kind:
                 found.append("%s:%d:%s" % (fn.rsplit("/", 1)[-1], node.lineno, kind))
     return found
@@ -110,6 +115,16 @@ def hidden(p, ctx):
         elif p["op"] == "backward":
             ctx.call(M1.project.backward_simulate, max_time=M1.run["max_time"])
             ctx.call(M1.project.insert_absence_time_list, [p["i0"]])
+        elif p["op"] == "forward-then-backward":
+            # a backward run on a project that was simulated forward before equals a backward run on a fresh twin
+            okb, rb = ctx.call(M1.project.backward_simulate, max_time=M1.run["max_time"])
+            Mb = build(spec, p, ctx.symbolic)
+            okf, rf = ctx.call(Mb.project.backward_simulate, max_time=Mb.run["max_time"])
+            kb = diff_dumps(dump(Mb), dump(M1))
+            if okb != okf or kb is not None:
+                ctx.fail("C09:hidden-state:backward-after-forward-differs:%s" % (short_key(kb) if kb else "raised"))
+                ctx.notes["bwd_differs_at"] = kb
+            ctx.cover("hidden:backward-after-forward")
         M2 = build(spec, p, ctx.symbolic)
         ok, r = ctx.call(M2.project.simulate, max_time=M2.run["max_time"])
         d2 = dump(M2)
@@ -150,7 +165,7 @@ def scan(p, ctx):
     allowed_files = ("base_workflow.py", "base_product.py", "base_project.py")
     for f in found:
         fn, line, kind = f.split(":")
-        if kind in ("set-display", "__hash__", "id()", "hash()") or fn not in allowed_files:
+        if kind in ("set-display", "__hash__", "id()", "hash()", "set-algebra") or fn not in allowed_files:
             ctx.fail("C09:scan:uncontrolled-unordered-construct:%s:%s" % (fn, kind))
     ctx.cover("scan:ok")
     ctx.sig = ("scan", len(found))
@@ -199,6 +214,11 @@ def obligations(tier, seed):
             pr = [[n, max(lo, narrow[n][0]), min(hi, narrow[n][1])] if n in narrow else [n, lo, hi] for n, lo, hi in ob["params"]] + [["k", 0, 5]]
             obs.append({"name": "aftercut/" + ob["name"], "harness": "after_cut", "cube": {"spec": ob["cube"]["spec"]}, "params": pr,
                         "timeout": 600 if thorough else 120, "engine": "zsym"})
+    for k in (0, 2):
+        spec = {"tasks": [{"w": "$w0"}, {"w": "$w1"}, {"w": "$w2"}, {"w": 1}], "edges": [[0, 1, k], [0, 2, 0], [1, 3, 0], [2, 3, 0]],
+                "teams": profiles.layout_workers("shared1", 4), "run": {"max_time": 14}}
+        obs.append({"name": "hidden/forward-then-backward/k=%s" % profiles.KN[k], "harness": "hidden", "cube": {"spec": spec, "op": "forward-then-backward", "i0": 0},
+                    "params": [["w0", 1, 2], ["w1", 1, 3], ["w2", 1, 3]], "timeout": 600 if thorough else 120, "engine": "zsym"})
     for op in ("insert", "insert-remove", "backward"):
         for k in (0, 2):
             spec = {"tasks": [{"w": "$w0"}, {"w": "$w1"}], "edges": [[0, 1, k]], "teams": profiles.layout_workers("private", 2), "run": {"max_time": 10}}
